@@ -2,7 +2,7 @@
 enumeration, decision tables of Polygon::contain, group verdicts only through contain, measures."""
 import itertools
 import re
-from .. import clone
+from .. import clone, tables
 from ..facts import AnalysisBroken
 from ..flow import lvalue_key, is_assign, _strip_casts
 
@@ -74,56 +74,126 @@ def operands(c, out):
     return out
 
 
+def opkey(n):
+    """operand name independent of value / pointer / reference spelling: `point.x`, `point->x`, `(*point).x` -> point.x"""
+    n = _strip_casts(n)
+    if n.k == 'MemberExpr' and n.n in ('x', 'y'):
+        b = n.child('base')
+        while b is not None and _strip_casts(b).k == 'MemberExpr' and not _strip_casts(b).n:
+            b = _strip_casts(b).child('base')
+        b = _strip_casts(b)
+        if b is not None and b.k == 'UnaryOperator' and b.op == '*':
+            b = _strip_casts(b.child('sub'))
+        if b is not None and b.k == 'ArraySubscriptExpr':
+            return norm(b.text()) + '.' + n.n
+        if b is not None and b.k in ('DeclRefExpr', 'MemberExpr'):
+            return norm(b.text()).replace('this->', '') + '.' + n.n
+    return norm(n.text())
+
+
+def cmp_operands(c, out):
+    c = _strip_casts(c)
+    if c.k == 'BinaryOperator' and c.op in ('&&', '||'):
+        cmp_operands(c.child('lhs'), out)
+        cmp_operands(c.child('rhs'), out)
+    elif c.k == 'UnaryOperator' and c.op == '!':
+        cmp_operands(c.child('sub'), out)
+    elif c.k == 'BinaryOperator' and c.op in ('<', '>', '<=', '>='):
+        out.add(opkey(c.child('lhs')))
+        out.add(opkey(c.child('rhs')))
+    elif c.k == 'DeclRefExpr' and c.dk == 'local':
+        d = next((v for v in c.fn.body.walk() if v.k == 'VarDecl' and v.d == c.d and v.child('init') is not None), None)
+        if d is not None:
+            cmp_operands(d.child('init'), out)
+    return out
+
+
+def ev2(c, val):
+    """truth value of a condition under val {operand key: rank, 'call:..': bool}; None when it involves anything else"""
+    c = _strip_casts(c)
+    if c.k == 'UnaryOperator' and c.op == '!':
+        v = ev2(c.child('sub'), val)
+        return None if v is None else (not v)
+    if c.k == 'BinaryOperator' and c.op in ('&&', '||'):
+        a, b = ev2(c.child('lhs'), val), ev2(c.child('rhs'), val)
+        if c.op == '&&':
+            return False if (a is False or b is False) else (None if (a is None or b is None) else True)
+        return True if (a is True or b is True) else (None if (a is None or b is None) else False)
+    if c.k == 'BinaryOperator' and c.op in ('<', '>', '<=', '>='):
+        a, b = val.get(opkey(c.child('lhs'))), val.get(opkey(c.child('rhs')))
+        if a is None or b is None:
+            return None
+        return {'<': a < b, '>': a > b, '<=': a <= b, '>=': a >= b}[c.op]
+    if c.k in ('CXXMemberCallExpr', 'CallExpr'):
+        return val.get('call')
+    if c.k == 'DeclRefExpr' and c.dk == 'local':
+        d = next((v for v in c.fn.body.walk() if v.k == 'VarDecl' and v.d == c.d and v.child('init') is not None), None)
+        if d is not None:
+            return ev2(d.child('init'), val)
+    return None
+
+
 def check_prefilters(ctx, db):
+    """The bounding-box pre-filter never changes a verdict. Over all weak orderings of (point.x, point.y, min.x, min.y, max.x,
+    max.y) and both outcomes of the exact test: an `accept` routine reaches its positive verdict for every point that is inside
+    the box and contained; a `reject` routine reaches its box-based negative verdict only for points outside the box. The
+    verdict statements are found by their path conditions (enclosing ifs and preceding guard clauses), so `if (in_box &&
+    contain(p)) return true;` and `if (!in_box) continue; if (contain(p)) return true;` are the same to the rule."""
     n = 0
     targets = [('gdstk::Polygon::contain_all', 'reject'), ('gdstk::Polygon::contain_any', 'accept'), ('gdstk::inside', 'accept'), ('gdstk::all_inside', 'reject'), ('gdstk::any_inside', 'accept')]
     for qn, mode in targets:
         f = db.fn(qn)
         ctx.touch(f)
-        cond = None
-        for i in f.walk():
-            if i.k == 'IfStmt':
-                ops = operands(i.child('cond'), set())
-                if any(o.endswith('min.x') for o in ops) and any(o.endswith('max.x') for o in ops):
-                    cond = i
-                    break
-        if cond is None:
+        key = '%s/prefilter' % qn.replace('gdstk::', '')
+        verdicts = []
+        for x in f.walk():
+            want = (mode == 'accept')
+            if x.k == 'ReturnStmt' and x.child('value') is not None and _strip_casts(x.child('value')).k == 'CXXBoolLiteralExpr' and bool(_strip_casts(x.child('value')).v) == want:
+                verdicts.append(x)
+            elif is_assign(x) and x.op == '=' and _strip_casts(x.child('rhs')).k == 'CXXBoolLiteralExpr' and bool(_strip_casts(x.child('rhs')).v) == want:
+                verdicts.append(x)
+        cand = []
+        for v in verdicts:
+            conds = tables.path_conds(v)
+            ops = set()
+            for c, pol in conds:
+                cmp_operands(c, ops)
+            if any(o.endswith('min.x') for o in ops) and any(o.endswith('max.x') for o in ops):
+                cand.append((v, conds, ops))
+        if not cand:
             raise AnalysisBroken('%s: bounding-box pre-filter not found' % qn)
-        c = cond.child('cond')
-        ops = sorted(operands(c, set()))
-        calls = [o for o in ops if o.startswith('call:')]
-        syms = [o for o in ops if not o.startswith('call:')]
-        pt = next((o[:-2] for o in syms if o.endswith('.x') and not o.startswith(('min', 'max'))), None)
-        need = {pt + '.x', pt + '.y', 'min.x', 'min.y', 'max.x', 'max.y'} if pt else set()
-        if not pt or not set(syms) <= need:
-            ctx.violation('R-ORDER', '%s/prefilter' % qn.replace('gdstk::', ''), cond.loc(), 'pre-filter mentions quantities other than the point and the box: %s' % syms)
-            continue
-        allsyms = sorted(need)
-        bad = None
-        count = 0
-        for ranks in itertools.product(range(3), repeat=6):
-            val = dict(zip(allsyms, ranks))
-            for cv in itertools.product((False, True), repeat=len(calls)):
-                val.update(dict(zip(calls, cv)))
-                count += 1
-                res = ev(c, val)
-                outside = val[pt + '.x'] < val['min.x'] or val[pt + '.x'] > val['max.x'] or val[pt + '.y'] < val['min.y'] or val[pt + '.y'] > val['max.y']
-                if mode == 'reject':
-                    if res and not outside:
-                        bad = dict(val)
-                else:
-                    # accept-mode: inside the box (and contain true) must pass the filter
-                    if not outside and all(cv) and not res:
-                        bad = dict(val)
-        ctx.explored['valuations'] += count
-        n += 1
-        ctx.check(bad is None, 'R-ORDER', '%s/prefilter' % qn.replace('gdstk::', ''), cond.loc(),
-                  'over all %d weak orderings: %s' % (count, 'a rejected point is outside the box' if mode == 'reject' else 'every point inside the box passes the filter'),
-                  'pre-filter is unsound for the ordering %s: %s' % (bad, 'a point inside the box is rejected' if mode == 'reject' else 'a point inside the box is filtered out before contain() is asked'))
-        # what the filter guards
-        if mode == 'reject':
-            th = cond.child('then')
-            ctx.check(th is not None and norm(th.text()) == 'return false', 'R-SHAPE', '%s/prefilter-action' % qn.replace('gdstk::', ''), cond.loc(), 'a rejected point makes the conjunction false')
+        for v, conds, ops in cand:
+            syms = sorted(o for o in ops)
+            pt = next((o[:-2] for o in syms if o.endswith('.x') and not o.split('.')[0].endswith(('min', 'max'))), None)
+            mn = next((o[:-2] for o in syms if o.endswith('min.x')), None)
+            mx = next((o[:-2] for o in syms if o.endswith('max.x')), None)
+            need = {pt + '.x', pt + '.y', mn + '.x', mn + '.y', mx + '.x', mx + '.y'} if pt and mn and mx else set()
+            if not need or not set(syms) <= need:
+                ctx.violation('R-ORDER', key, v.loc(), 'pre-filter mentions quantities other than the point and the box: %s' % syms)
+                continue
+            allsyms = sorted(need)
+            bad = None
+            count = 0
+            for ranks in itertools.product(range(3), repeat=6):
+                val = dict(zip(allsyms, ranks))
+                outside = val[pt + '.x'] < val[mn + '.x'] or val[pt + '.x'] > val[mx + '.x'] or val[pt + '.y'] < val[mn + '.y'] or val[pt + '.y'] > val[mx + '.y']
+                for cv in (False, True):
+                    val['call'] = cv
+                    count += 1
+                    rs = [(ev2(c, val), pol) for c, pol in conds]
+                    blocked = any(r is not None and r != pol for r, pol in rs)
+                    if mode == 'reject':
+                        # the negative verdict is reachable (as far as the box tests go) although the point is not outside
+                        if not blocked and not outside:
+                            bad = dict(val)
+                    else:
+                        if blocked and not outside and cv:
+                            bad = dict(val)
+            ctx.explored['valuations'] += count
+            n += 1
+            ctx.check(bad is None, 'R-ORDER', key, v.loc(),
+                      'over all %d weak orderings: %s' % (count, 'a rejected point is outside the box' if mode == 'reject' else 'every contained point inside the box reaches the positive verdict'),
+                      'pre-filter is unsound for the ordering %s: %s' % (bad, 'a point inside the box is rejected' if mode == 'reject' else 'a point inside the box is filtered out before contain() is asked'))
     ctx.require('R-ORDER pre-filters', n, 5)
 
 
@@ -258,9 +328,16 @@ def check_groups(ctx, db):
             ctx.check(fresh, 'R-FRESH', '%s/per-point-verdict:%s' % (qn.replace('gdstk::', ''), key), x.loc(), 'the verdict `%s` is reset to false at the start of every point\'s iteration, before the search over the polygons' % key,
                       'the per-point verdict `%s` is not reset inside the loop over the points: once one point is found inside, every later point inherits the answer' % key)
         # every point and every polygon is visited
-        loops = [norm(l.child('cond').text()) for l in f.walk() if l.k == 'ForStmt']
-        needp = any(c.endswith('< points.count)') for c in loops)
-        needg = qn.startswith('gdstk::Polygon::') or any(c.endswith('< polygons.count)') for c in loops)
+        from .. import loops as LP
+        trips = []
+        for l in LP.loops_of(f):
+            t = LP.Loop(f, l).trip()
+            if t is not None:
+                trips.append(t)
+        pk = next(('v%d:%s' % (p_['d'], p_['n']) for p_ in f.params if p_['n'] == 'points'), None)
+        gk = next(('v%d:%s' % (p_['d'], p_['n']) for p_ in f.params if p_['n'] == 'polygons'), None)
+        needp = pk is not None and {pk + '.count': 1} in trips          # some loop runs exactly points.count times (any loop form)
+        needg = qn.startswith('gdstk::Polygon::') or (gk is not None and {gk + '.count': 1} in trips)
         ctx.check(needp and needg, 'R-AGG', '%s/all-points-all-polygons' % qn.replace('gdstk::', ''), f.loc(), 'loops run over all points (and all polygons of the group)')
 
 
